@@ -625,7 +625,9 @@ def write_evidence(prop, tier, seed, cfg, per_flavour, found, known_hits, known_
         "wall_s": round(wall, 2),
         "violations": len(found),
     }
-    with open(os.path.join(VERIF, "evidence", prop + ".json"), "w") as f:
+    evdir = os.environ.get("VERIF_EVIDENCE_DIR") or os.path.join(VERIF, "evidence")
+    os.makedirs(evdir, exist_ok=True)
+    with open(os.path.join(evdir, prop + ".json"), "w") as f:
         json.dump(ev, f, indent=1)
 
 
